@@ -68,14 +68,15 @@ def strategy(draw):
                 kw=draw(st.sampled_from([None, None, {"height-cap": 0.6}, {"height-cap-mean": 0.9}, {"height-cap-mean": 0.8}, {"prominence": 1.5}, {"width": 3}])),
                 two_peaks=dict(centre=draw(gen.floats(0.72, 0.85)), ratio=draw(gen.floats(0.45, 0.7))),
                 # one azimuth refined on its own afterwards (az.hvsrs[k].update_peaks_bounded): members then differ in their search range
-                member_range=draw(st.one_of(st.none(), st.tuples(st.integers(0, 5), st.sampled_from(["upper-half", "lower-half", "narrow"])))))
+                member_range=draw(st.one_of(st.none(), st.tuples(st.integers(0, 5), st.sampled_from(["upper-half", "lower-half", "narrow", "second-bump", "second-bump"])))))
 
 
 def _build(hv, case):
     f = np.array(case["f"], dtype=float)
     groups = [c06.expand_group(g, f) for g in case["groups"]]
     tp = case.get("two_peaks")
-    if tp and case.get("kw") and "height-cap-mean" in case["kw"]:
+    mr_ = case.get("member_range")
+    if tp and ((case.get("kw") and "height-cap-mean" in case["kw"]) or (mr_ and mr_[1] == "second-bump" and case["kind"] == "azimuthal")):
         # a second, lower bump common to all windows: the mean curve then has two clear peaks
         x = np.linspace(0, 1, len(f))
         groups = [A + tp["ratio"] * (A.max(axis=1, keepdims=True) - 1.0) * np.exp(-0.5 * ((x - tp["centre"]) / 0.04) ** 2) for A in groups]
@@ -100,7 +101,9 @@ def _build(hv, case):
     if mr and case["kind"] == "azimuthal" and len(members) >= 2:
         k = 1 + mr[0] % (len(members) - 1)
         n_ = len(f)
-        lo_i, hi_i = {"upper-half": (n_ // 2, n_ - 2), "lower-half": (1, n_ // 2), "narrow": (n_ // 3, 2 * n_ // 3)}[mr[1]]
+        lo_i, hi_i = {"upper-half": (n_ // 2, n_ - 2), "lower-half": (1, n_ // 2), "narrow": (n_ // 3, 2 * n_ // 3),
+                      # only the lower, common bump lies inside: this azimuth's peak then differs from the peak in the others' range
+                      "second-bump": (max(1, int((tp["centre"] - 0.08) * (n_ - 1))), n_ - 2)}[mr[1]]
         members[k].update_peaks_bounded((float(f[lo_i]), float(f[hi_i])), kw)
 
     def apply_masks(all_with_peak=False):
@@ -178,6 +181,41 @@ def _rows_match(lines, rows, what, f):
         raise Violation(f"{what}: {len(ys)} lines drawn for {len(want)} windows" + ("" if len(ys) != len(want) else "; the line data are not those windows' curves"))
     for l in lines:
         require(same_bits(l["x"], f), f"{what}: a line is not drawn against the object's frequency vector")
+
+
+def _check_3d_markers(out, obj, case):
+    """The 3-D azimuthal plot draws the peak of every azimuth's mean curve (first azimuth repeated at 180 degrees)."""
+    ax = out[1] if isinstance(out, tuple) else out
+    if isinstance(ax, (tuple, list)):
+        ax = ax[0]
+    pts = []
+    for coll in list(getattr(ax, "collections", [])):
+        off = getattr(coll, "_offsets3d", None)
+        if off is not None and len(off[0]):
+            pts.append(tuple(np.asarray(v, dtype=float) for v in off))
+    for line in ax.get_lines():
+        if line.get_marker() not in (None, "None", "", " "):
+            d3 = getattr(line, "_verts3d", None)
+            if d3 is not None:
+                pts.append(tuple(np.asarray(v, dtype=float) for v in d3))
+    if not case["by_az"]:
+        require(not pts, "3-D azimuthal plot: per-azimuth peak markers drawn although disabled")
+        return
+    fp, ap = obj.mean_curve_peak_by_azimuth(case["dist_mc"])
+    want_f = np.array([*fp, fp[0]], dtype=float)
+    want_a = np.array([*ap, ap[0]], dtype=float)
+    want_az = np.array([*obj.azimuths, 180.0], dtype=float)
+    def same_set(p):
+        # x = log10(frequency), y = azimuth, z = peak amplitude (the library lifts the markers 5 % above the surface)
+        if len(p[0]) != len(want_f):
+            return False
+        a = sorted(zip(np.round(p[0], 12).tolist(), np.round(p[1], 12).tolist(), p[2].tolist()))
+        b = sorted(zip(np.round(np.log10(want_f), 12).tolist(), np.round(want_az, 12).tolist(), want_a.tolist()))
+        return all(x1 == x2 and y1 == y2 and z2 * (1 - 1e-12) <= z1 <= 1.06 * z2 for (x1, y1, z1), (x2, y2, z2) in zip(a, b))
+    ok = any(same_set(p) for p in pts)
+    if not ok:
+        raise Violation(f"3-D azimuthal plot: no marker set at the peaks of the azimuths' mean curves {np.round(want_f, 4).tolist()} "
+                        f"(drawn: {[np.round(p[0], 4).tolist() for p in pts][:2]} / {[np.round(p[1], 4).tolist() for p in pts][:2]})")
 
 
 def _check_single_panel(hv, pp, ax, obj, members, f, case, opts, what="single panel", all_accepted=False):
@@ -339,7 +377,8 @@ def check_case(case):
             else:
                 require(len(sq) == 0, "2-D azimuthal plot: per-azimuth peak markers drawn although disabled")
         elif func == "contour_3d":
-            sut(hv.plot_azimuthal_contour_3d, obj, distribution_mc=case["dist_mc"], plot_mean_curve_peak_by_azimuth=case["by_az"], what="plot_azimuthal_contour_3d")
+            out3 = sut(hv.plot_azimuthal_contour_3d, obj, distribution_mc=case["dist_mc"], plot_mean_curve_peak_by_azimuth=case["by_az"], what="plot_azimuthal_contour_3d")
+            _check_3d_markers(out3, obj, case)
         elif func == "az_summary":
             fig, (ax0, ax1, ax2) = sut(hv.plot_azimuthal_summary, obj, distribution_mc=case["dist_mc"], distribution_fn=case["dist_fn"],
                                        plot_mean_curve_peak_by_azimuth=case["by_az"], what="plot_azimuthal_summary", **opts)
@@ -347,6 +386,14 @@ def check_case(case):
             # the summary passes plot_peak_mean_curve=plot_mean_curve to the panel and draws the peak again when plot_peak_mean_curve is set
             o2["plot_peak_mean_curve"] = opts["plot_mean_curve"] or opts["plot_peak_mean_curve"]
             _check_single_panel(hv, pp, ax2, obj, members, f, case, o2, what="azimuthal summary, curve panel")
+            sq = [l for l in _lines(ax1) if l["marker"] == "s"]
+            if case["by_az"]:
+                fp, _ = obj.mean_curve_peak_by_azimuth(case["dist_mc"])
+                require(len(sq) == 1 and same_bits(sq[0]["x"], fp) and sq[0]["y"].tolist() == [float(a) for a in obj.azimuths],
+                        "azimuthal summary, 2-D panel: markers are not at mean_curve_peak_by_azimuth / the object's azimuths")
+            else:
+                require(len(sq) == 0, "azimuthal summary, 2-D panel: per-azimuth peak markers drawn although disabled")
+            _check_3d_markers((fig, ax0), obj, case)
     finally:
         pp.display = old_display
         plt.close("all")
